@@ -35,13 +35,14 @@ type aversion struct {
 }
 
 type ahmac struct {
-	SigH     string     `json:"sigHeader"`
-	TsH      string     `json:"tsHeader"`
-	NonceH   string     `json:"nonceHeader"`
-	Tol      int64      `json:"tol"`
-	Direct   []string   `json:"direct"` // hex
-	Versions []aversion `json:"versions"`
-	directRaw []string
+	SigH       string     `json:"sigHeader"`
+	TsH        string     `json:"tsHeader"`
+	NonceH     string     `json:"nonceHeader"`
+	Tol        int64      `json:"tol"`
+	Direct     []string   `json:"direct"` // hex
+	Versions   []aversion `json:"versions"`
+	directRaw  []string
+	foreignRaw []string // secrets of ANOTHER hmac route of the same configuration
 }
 
 // scripted forward-auth service
@@ -108,18 +109,54 @@ func genAuthConfig(r *rng, nowNS int64, fwdURL string, variant int) authScenario
 			v := aversion{ID: fmt.Sprintf("S%d", i+1), raw: fmt.Sprintf("key-%d-%x", i, r.u64()&0xffff)}
 			v.Value = hex.EncodeToString([]byte(v.raw))
 			// windows around "now": adjacent, overlapping, expired, future
-			from := nowS + int64(pick(r, []int{-3600, -600, -60, -20, -5, 0, 5, 20, 60}))*sec
-			v.From = from
-			fmt.Fprintf(&b, "  secret \"%s\" {\n    value raw:%s\n    valid_from \"%s\"\n", v.ID, v.raw, rfc3339(from))
+			v.From = nowS + int64(pick(r, []int{-3600, -600, -60, -20, -5, 0, 5, 20, 60}))*sec
 			if r.chance(65) {
-				u := from + int64(pick(r, []int{5, 10, 20, 60, 600, 7200}))*sec
+				u := v.From + int64(pick(r, []int{5, 10, 20, 60, 600, 7200}))*sec
 				v.Until = &u
-				fmt.Fprintf(&b, "    valid_until \"%s\"\n", rfc3339(u))
 			}
-			b.WriteString("  }\n")
 			hm.Versions = append(hm.Versions, v)
 		}
+		if nv >= 2 && r.chance(35) {
+			// rotation layouts: the next secret provisioned ahead of time and listed first; or adjacent windows, old one first
+			t := nowS + int64(pick(r, []int{2, 5, 20}))*sec
+			if r.chance(50) {
+				hm.Versions[0].From, hm.Versions[0].Until = t, nil
+				hm.Versions[1].From, hm.Versions[1].Until = nowS-600*sec, nil
+				if r.chance(50) {
+					hm.Versions[1].Until = &t
+				}
+			} else {
+				hm.Versions[0].From, hm.Versions[0].Until = nowS-600*sec, &t
+				hm.Versions[1].From, hm.Versions[1].Until = t, nil
+			}
+		}
+		for _, v := range hm.Versions {
+			fmt.Fprintf(&b, "  secret \"%s\" {\n    value raw:%s\n    valid_from \"%s\"\n", v.ID, v.raw, rfc3339(v.From))
+			if v.Until != nil {
+				fmt.Fprintf(&b, "    valid_until \"%s\"\n", rfc3339(*v.Until))
+			}
+			b.WriteString("  }\n")
+		}
+	}
+	// a second hmac route with its own secret versions (always valid), declared before or after /h
+	other := ""
+	if useVersions && r.chance(60) {
+		ng := 1 + r.intn(2)
+		other = "/g {\n  auth hmac {\n"
+		for i := 0; i < ng; i++ {
+			raw := fmt.Sprintf("gkey-%d-%x", i, r.u64()&0xffff)
+			hm.foreignRaw = append(hm.foreignRaw, raw)
+			fmt.Fprintf(&b, "  secret \"G%d\" {\n    value raw:%s\n    valid_from \"%s\"\n  }\n", i+1, raw, rfc3339(nowS-int64(7200+i)*sec))
+			other += fmt.Sprintf("    secret_ref \"G%d\"\n", i+1)
+		}
+		other += "  }\n  pull { path /pull/g }\n}\n"
+	}
+	if useVersions {
 		b.WriteString("}\n")
+	}
+	otherFirst := r.chance(50)
+	if !otherFirst {
+		b.WriteString(other)
 	}
 	b.WriteString("/h {\n  auth hmac {\n")
 	if useVersions {
@@ -149,6 +186,9 @@ func genAuthConfig(r *rng, nowNS int64, fwdURL string, variant int) authScenario
 	}
 	hm.Tol = int64(tolS) * sec
 	b.WriteString("  }\n  pull { path /pull/h }\n}\n")
+	if otherFirst {
+		b.WriteString(other)
+	}
 	sc.hasHMAC = true
 	// basic route
 	sc.users = [][2]string{{"alice", "s3cret"}, {"bob", "pw2"}}
@@ -301,7 +341,7 @@ func cmdAuth(args []string) error {
 					tolS := pick(r, []int{2, 5, 10, 30, 300, 420, 720})
 					re := regexp.MustCompile(`(?m)^    tolerance \d+s\n`)
 					txt := re.ReplaceAllString(sc.text, "")
-					txt = strings.Replace(txt, "  auth hmac {\n", fmt.Sprintf("  auth hmac {\n    tolerance %ds\n", tolS), 1)
+					txt = strings.Replace(txt, "/h {\n  auth hmac {\n", fmt.Sprintf("/h {\n  auth hmac {\n    tolerance %ds\n", tolS), 1)
 					if err := os.WriteFile(cfgPath, []byte(txt), 0o600); err == nil {
 						sc.text = txt
 						newTol = int64(tolS) * sec
@@ -344,7 +384,17 @@ func cmdAuth(args []string) error {
 					ts := fmt.Sprint(nowSec + off)
 					// choose the signing secret: any configured one, or a wrong one
 					var key []byte
+					var validNow []aversion
+					for _, v := range sc.hm.Versions {
+						if tsv := (nowSec + off) * sec; v.From <= tsv && (v.Until == nil || tsv < *v.Until) {
+							validNow = append(validNow, v)
+						}
+					}
 					switch {
+					case len(sc.hm.foreignRaw) > 0 && r.chance(6):
+						key = []byte(pick(r, sc.hm.foreignRaw)) // valid on another route only
+					case len(validNow) > 0 && r.chance(55):
+						key = []byte(pick(r, validNow).raw) // a version valid at the signed instant
 					case len(sc.hm.Versions) > 0 && r.chance(75):
 						key = []byte(pick(r, sc.hm.Versions).raw)
 					case len(sc.hm.directRaw) > 0 && r.chance(80):
@@ -361,10 +411,14 @@ func cmdAuth(args []string) error {
 					if r.chance(4) {
 						signMethod = "PUT" // signed for another method
 					}
-					s.sig = signIngress(key, ts, signMethod, cleaned, body)
+					signPath := cleaned
+					if r.chance(5) {
+						signPath = pick(r, []string{"/h", "/h/x", rawPath, "/", "/h/"}) // signed for another (or the un-cleaned) path
+					}
+					s.sig = signIngress(key, ts, signMethod, signPath, body)
 					// mutations of an otherwise valid request
 					mut := r.weighted([]int{62, 4, 4, 4, 5, 4, 3, 3, 3, 3, 3, 2})
-					plain = mut == 0 && signMethod == method && string(key) != "wrong-key" && s.nonce == fmt.Sprintf("n%d-%d", c, nonceN)
+					plain = mut == 0 && signMethod == method && signPath == cleaned && string(key) != "wrong-key" && s.nonce == fmt.Sprintf("n%d-%d", c, nonceN)
 					reloadInFlight = plain && r.chance(8)
 					switch mut {
 					case 1:
